@@ -1,5 +1,6 @@
 #!/bin/bash
 # tools/seedcheck.sh <ID> <check ids...>: verify a sub-agent's seeded change in /tmp/seed-<ID> (+ /tmp/seed-<ID>-demo)
+# NOT to be run in parallel with another run.sh (one harness binary under .bin).
 # independently: baseline passes, demo fails with the change and passes without it, then run the given checks on it.
 ID=$1; shift
 WT=/tmp/seed-$ID; DEMO=/tmp/seed-$ID-demo
@@ -8,9 +9,9 @@ echo "== $ID: diff stat"; git -C $WT diff --stat | tail -3
 echo "== baseline on changed tree"; REPO=$WT /verif/baseline.sh
 RACE=""; grep -qi -- "-race" $DEMO/NOTES.md 2>/dev/null && RACE="-race"
 echo "== demo WITH change (expect FAIL)"; (cd $DEMO && GOFLAGS=-mod=mod GOWORK=off go test -count=1 $RACE ./... 2>&1 | tail -3)
-git -C $WT stash -q
+git -C $WT diff > $DEMO/.seedcheck.patch; git -C $WT checkout -- .   # not "git stash": the stash is shared by all worktrees of a repository
 echo "== demo WITHOUT change (expect ok)"; (cd $DEMO && GOFLAGS=-mod=mod GOWORK=off go test -count=1 $RACE ./... 2>&1 | tail -3)
-git -C $WT stash pop -q
+git -C $WT apply $DEMO/.seedcheck.patch && rm -f $DEMO/.seedcheck.patch
 for c in "$@"; do
   echo "== check $c quick on changed tree"; VERIF_REPO=$WT /verif/run.sh $c quick 2>&1 | grep -E "VIOLATION|kind=|held|inconclusive|BROKEN|KNOWN" | head -4
 done
